@@ -356,3 +356,17 @@ Proof.
   split; [apply (pip_true_iff (-360)); [exact Hh|cbn; lia|vm_compute; reflexivity]|].
   split; vm_compute; reflexivity.
 Qed.
+
+(* an outline handed over open (first <> last) is closed by the constructor: same answers *)
+Lemma norm_outline_open h v tl : pt_eqb v (last (v :: tl) v) = false ->
+  norm_outline h (v :: tl) = norm_outline h (reclose (v :: tl)).
+Proof.
+  intros H. unfold norm_outline. rewrite close_ring_reclose.
+  assert (E : close_ring (v :: tl) = reclose (v :: tl)) by (unfold close_ring; rewrite H; reflexivity).
+  rewrite E. reflexivity.
+Qed.
+
+Theorem pip_norm_open w p h v tl : west_ok w (v :: tl) -> w <= px p ->
+  pt_eqb v (last (v :: tl) v) = false ->
+  (pip w p (norm_outline h (v :: tl)) = true <-> strict_in p (v :: tl)).
+Proof. intros Hw Hp H. rewrite norm_outline_open by assumption. apply pip_norm; assumption. Qed.
